@@ -236,18 +236,27 @@ def check(run, ctx):
     # ---------------------------------------------------------------- D8
     D8 = run.rule("D8", "the skip state of a multi-line import ends at the first line that contains the closing parenthesis anywhere (`')' in line`), not only at a line that is or ends with it", floor=1,
                   decides="`export function f(` ... `): T {` or `) {` / `);` closes the skipped header: the body that follows is hashed, so duplicates in it are reported")
-    hc = repo.func("src.linters.dry.token_hasher._handle_multiline_import_continuation")
-    flat = list(inline.flat_nodes(repo, hc))
+    # by role: whatever runs in should_skip_import_line's `if <state parameter>:` branch, helpers included
+    hc = repo.func("src.linters.dry.token_hasher.should_skip_import_line")
+    run.require(len(hc.node.args.args) >= 2, "should_skip_import_line: no state parameter")
+    st_par = hc.node.args.args[1].arg
+    branch = next((n for n in ast.walk(hc.node) if isinstance(n, ast.If) and isinstance(n.test, ast.Name) and n.test.id == st_par), None)
+    run.require(branch is not None, "should_skip_import_line: no `if <state>:` branch found - D8 cannot locate the continuation handling")
+    flat = [x for st_ in branch.body for x in ast.walk(st_)]
+    for c_ in [x for x in flat if isinstance(x, ast.Call)]:
+        h_ = inline.resolve_call(repo, hc, c_)
+        if h_ is not None and h_.module is hc.module:
+            flat += list(inline.flat_nodes(repo, h_))
     anywhere = [n for n in flat if isinstance(n, ast.Compare) and len(n.ops) == 1 and isinstance(n.ops[0], (ast.In, ast.NotIn)) and repo.fold(hc.module, n.left) == ")"]
     anywhere += [n for n in flat if isinstance(n, ast.Call) and call_name(n) in ("find", "count", "index", "rfind", "partition") and n.args and repo.fold(hc.module, n.args[0]) == ")"]
     anchored = [n for n in flat if (isinstance(n, ast.Call) and call_name(n) in ("endswith", "startswith", "fullmatch", "match") and n.args and any(isinstance(c, ast.Constant) and isinstance(c.value, str) and ")" in c.value for c in ast.walk(n.args[0])))
                 or (isinstance(n, ast.Compare) and len(n.ops) == 1 and isinstance(n.ops[0], (ast.Eq, ast.NotEq)) and any(repo.fold(hc.module, x) == ")" for x in [n.left] + n.comparators))]
     if anchored:
-        run.finding(D8, "token_hasher._handle_multiline_import_continuation", f"anchored-close:{norm(anchored[0])[:40]}", f"the import-continuation state is left only when `{norm(anchored[0])[:60]}`: a closing line that carries more text (`): string {{`, `) {{`, `);` after an `export function f(` header the tokeniser took for an import) never closes it, the rest of the file is skipped and its duplicates are not reported", hc.loc)
+        run.finding(D8, "token_hasher.should_skip_import_line[continuation]", f"anchored-close:{norm(anchored[0])[:40]}", f"the import-continuation state is left only when `{norm(anchored[0])[:60]}`: a closing line that carries more text (`): string {{`, `) {{`, `);` after an `export function f(` header the tokeniser took for an import) never closes it, the rest of the file is skipped and its duplicates are not reported", hc.loc)
     elif anywhere:
-        run.ok(D8, "_handle_multiline_import_continuation", f"closes on `{norm(anywhere[0])[:40]}`")
+        run.ok(D8, "should_skip_import_line[continuation]", f"closes on `{norm(anywhere[0])[:40]}`")
     else:
-        run.undecided(D8, "_handle_multiline_import_continuation", "closing test not recognised")
+        run.undecided(D8, "should_skip_import_line[continuation]", "closing test not recognised")
     return __doc__
 
 
